@@ -7,108 +7,234 @@ outside transaction blocks (the snapshot a ROLLBACK restores is well formed too)
 By induction this holds after every finite call history (`run_inv`).
 -/
 import DC.Proofs.Inv
+import DC.Model.Run
 
 namespace DC.Cache
 
 theorem inv_init (c : Cfg) (st : Bool) : TableInv ({ cfg := c, statistics := st } : Cache) := by
-  sorry
+  exact ⟨TableOk.nil, nofun⟩
 
 theorem set_inv (s : Cache) (E : Externals) (now : Int) (k v : PyVal) (ttl : Option Int) (read : Bool)
     (tag : SqlVal) (h : TableInv s) : TableInv (s.set E now k v ttl read tag).1 := by
-  sorry
+  unfold set
+  have hnn := put_ne_null' E s.cfg.disk k
+  generalize DC.put E s.cfg.disk k = p at hnn ⊢
+  rcases p with ⟨dbk, raw⟩
+  simp only at hnn ⊢
+  split
+  · exact h
+  · rename_i s' c hst
+    obtain ⟨h', hrows⟩ := store_inv hst h
+    apply transact_inv _ _ h'
+    intro t ht _
+    cases hold : t.selKey dbk raw with
+    | none =>
+      inv_auto
+      exact insRow_inv _ _ _ _ (logSql_inv _ ht) hold hnn
+    | some r => inv_auto
 
 theorem add_inv (s : Cache) (E : Externals) (now : Int) (k v : PyVal) (ttl : Option Int) (read : Bool)
     (tag : SqlVal) (h : TableInv s) : TableInv (s.add E now k v ttl read tag).1 := by
-  sorry
+  unfold add
+  have hnn := put_ne_null' E s.cfg.disk k
+  generalize DC.put E s.cfg.disk k = p at hnn ⊢
+  rcases p with ⟨dbk, raw⟩
+  simp only at hnn ⊢
+  split
+  · exact h
+  · rename_i s' c hst
+    obtain ⟨h', hrows⟩ := store_inv hst h
+    apply transact_inv _ _ h'
+    intro t ht _
+    cases hold : t.selKey dbk raw with
+    | none =>
+      inv_auto
+      exact insRow_inv _ _ _ _ (logSql_inv _ ht) hold hnn
+    | some r => inv_auto
 
 theorem touch_inv (s : Cache) (E : Externals) (now : Int) (k : PyVal) (ttl : Option Int)
     (h : TableInv s) : TableInv (s.touch E now k ttl).1 := by
-  sorry
+  unfold touch
+  rcases DC.put E s.cfg.disk k with ⟨dbk, raw⟩
+  simp only
+  apply transact_inv _ _ h
+  intro t ht _
+  inv_auto
 
 theorem incr_inv (s : Cache) (E : Externals) (now : Int) (k : PyVal) (delta : Int) (dflt : Option Int)
     (h : TableInv s) : TableInv (s.incr E now k delta dflt).1 := by
-  sorry
+  unfold incr
+  have hnn := put_ne_null' E s.cfg.disk k
+  generalize DC.put E s.cfg.disk k = p at hnn ⊢
+  rcases p with ⟨dbk, raw⟩
+  simp only at hnn ⊢
+  apply transact_inv _ _ h
+  intro t ht _
+  cases hold : t.selKey dbk raw with
+  | none =>
+    simp only
+    split
+    · inv_auto
+    · split
+      · inv_auto
+      · rename_i s' c hst
+        obtain ⟨h', hrows⟩ := store_inv hst (logSql_inv "selKey" ht)
+        inv_auto
+        exact insRow_inv _ _ _ _ h' ((selKey_congr hrows dbk raw).trans hold) hnn
+  | some r =>
+    simp only
+    split
+    · split
+      · inv_auto
+      · split
+        · inv_auto
+        · rename_i s' c hst
+          obtain ⟨h', hrows⟩ := store_inv hst (logSql_inv "selKey" ht)
+          inv_auto
+    · inv_auto
 
 theorem get_inv (s : Cache) (E : Externals) (now : Int) (k : PyVal) (read et tg : Bool)
     (h : TableInv s) : TableInv (s.get E now k read et tg).1 := by
-  sorry
+  unfold get
+  rcases DC.put E s.cfg.disk k with ⟨dbk, raw⟩
+  simp only
+  split
+  · inv_auto
+  · apply transact_inv _ _ h
+    intro t ht _
+    inv_auto
+    all_goals (first | with_reducible apply setMisses_inv | with_reducible apply setHits_inv)
+    all_goals inv_auto
 
 theorem contains_inv (s : Cache) (E : Externals) (now : Int) (k : PyVal)
     (h : TableInv s) : TableInv (s.contains E now k).1 := by
-  sorry
+  exact logSql_inv _ h
 
 theorem pop_inv (s : Cache) (E : Externals) (now : Int) (k : PyVal) (et tg : Bool)
     (h : TableInv s) : TableInv (s.pop E now k et tg).1 := by
-  sorry
+  unfold pop
+  rcases DC.put E s.cfg.disk k with ⟨dbk, raw⟩
+  simp only
+  inv_auto
 
 theorem delitem_inv (s : Cache) (E : Externals) (now : Int) (k : PyVal)
     (h : TableInv s) : TableInv (s.delitem E now k).1 := by
-  sorry
+  unfold delitem
+  rcases DC.put E s.cfg.disk k with ⟨dbk, raw⟩
+  simp only
+  apply transact_inv _ _ h
+  intro t ht _
+  inv_auto
+
+theorem delete_fst (s : Cache) (E : Externals) (now : Int) (k : PyVal) :
+    (s.delete E now k).1 = (s.delitem E now k).1 := by
+  unfold delete
+  split <;> simp_all
 
 theorem delete_inv (s : Cache) (E : Externals) (now : Int) (k : PyVal)
     (h : TableInv s) : TableInv (s.delete E now k).1 := by
-  sorry
+  rw [delete_fst]
+  exact delitem_inv s E now k h
 
 theorem push_inv (s : Cache) (E : Externals) (now : Int) (v : PyVal) (pfx : Option Str) (back : Bool)
     (ttl : Option Int) (read : Bool) (tag : SqlVal) (h : TableInv s) :
     TableInv (s.push E now v pfx back ttl read tag).1 := by
-  sorry
+  unfold push
+  split
+  · exact h
+  · rename_i s' c hst
+    obtain ⟨h', hrows⟩ := store_inv hst h
+    apply transact_inv _ _ h'
+    intro t ht _
+    simp only
+    split
+    · inv_auto
+    · split
+      · inv_auto
+      · split
+        · inv_auto
+        · rename_i hsel _
+          inv_auto
+          refine insRow_inv _ _ _ _ (logSql_inv _ ht) ?_ (queueKey_ne_null _ _)
+          cases hs : (t.logSql "selQueueEnd").selKey (queueKey pfx _) true with
+          | none => rfl
+          | some r => rw [hs] at hsel; simp at hsel
 
 theorem pull_inv (s : Cache) (E : Externals) (now : Int) (pfx : Option Str) (front et tg : Bool)
     (h : TableInv s) : TableInv (s.pull E now pfx front et tg).1 := by
-  sorry
+  exact pullLoop_inv E now pfx front et tg _ h
 
 theorem peek_inv (s : Cache) (E : Externals) (now : Int) (pfx : Option Str) (front et tg : Bool)
     (h : TableInv s) : TableInv (s.peek E now pfx front et tg).1 := by
-  sorry
+  exact peekLoop_inv E now pfx front et tg _ h
 
 theorem peekitem_inv (s : Cache) (E : Externals) (now : Int) (last et tg : Bool)
     (h : TableInv s) : TableInv (s.peekitem E now last et tg).1 := by
-  sorry
+  exact peekitemLoop_inv E now last et tg _ h
 
 theorem clear_inv (s : Cache) (h : TableInv s) : TableInv (s.clear).1 := by
-  sorry
+  show TableInv (clearLoop (s.rows.length + 1) s 0 0).1
+  exact clearLoop_inv _ _ _ h
 
 theorem evict_inv (s : Cache) (tag : SqlVal) (h : TableInv s) : TableInv (s.evict tag).1 := by
-  sorry
+  show TableInv (evictLoop tag (s.rows.length + 1) s 0 0).1
+  exact evictLoop_inv tag _ _ _ h
 
 theorem expire_inv (s : Cache) (now : Int) (h : TableInv s) : TableInv (s.expire now).1 := by
-  sorry
+  show TableInv (expireLoop now (s.rows.length + 1) s none 0).1
+  exact expireLoop_inv now _ _ _ h
 
 theorem cull_inv (s : Cache) (now : Int) (h : TableInv s) : TableInv (s.cull now).1 := by
-  sorry
+  rw [cull_eq]
+  split
+  · exact expireLoop_inv now _ _ _ h
+  · exact cullLoop_inv' _ _ (expireLoop_inv now _ _ _ h)
 
 theorem iter_inv (s : Cache) (E : Externals) (asc : Bool) (h : TableInv s) : TableInv (s.iter E asc).1 := by
-  sorry
+  unfold iter
+  simp only
+  split
+  · exact logSql_inv _ h
+  · exact iterLoop_inv asc _ _ _ _ (logSql_inv _ h)
 
 theorem iterkeys_inv (s : Cache) (E : Externals) (rev : Bool) (h : TableInv s) :
     TableInv (s.iterkeys E rev).1 := by
-  sorry
+  unfold iterkeys
+  simp only
+  split
+  · exact logSql_inv _ h
+  · exact iterkeysLoop_inv rev _ _ _ (logSql_inv _ h)
 
 theorem len_inv (s : Cache) (h : TableInv s) : TableInv (s.len).1 := by
-  sorry
+  exact logSql_inv _ h
 
 theorem stats_inv (s : Cache) (enable reset : Bool) (h : TableInv s) : TableInv (s.stats enable reset).1 := by
-  sorry
+  unfold stats
+  simp only
+  split
+  · exact h.same rfl rfl rfl rfl
+  · exact h.same rfl rfl rfl rfl
 
 theorem tbegin_inv (s : Cache) (h : TableInv s) : TableInv s.tbegin := by
-  sorry
+  exact tbegin_inv' h
 
 theorem tend_inv (s : Cache) (h : TableInv s) : TableInv s.tend := by
-  sorry
+  exact tend_inv' h
 
 theorem traise_inv (s : Cache) (n : Nat) (h : TableInv s) : TableInv (s.traise n) := by
-  sorry
+  exact traise_inv' n h
 
 /-- `len()` is the number of stored rows in every reachable state -/
 theorem len_exact (s : Cache) (h : TableInv s) : (s.len).2 = .int s.rows.length := by
-  sorry
+  show Out.int s.count = _
+  rw [h.tbl.count]
 
 /-- a look-up addresses at most one row: the row found by key is the only row with that key -/
 theorem lookup_unique (s : Cache) (h : TableInv s) (k : SqlVal) (raw : Bool) (r r' : Row)
     (hr : r ∈ s.rows) (hr' : r' ∈ s.rows) (hk : keyMatch k raw r = true) (hk' : keyMatch k raw r' = true)
     (hnn : k ≠ .null) : r = r' := by
-  sorry
+  have _ := hnn
+  exact keysUnique_eq h.tbl.uniq hr hr' hk hk'
 
 /-- nothing else is touched by `set`: every other row is unchanged, unless the lazy cull of
 this write removed it (C04/C09 say which rows that can be) -/
@@ -116,7 +242,44 @@ theorem set_other_rows (s : Cache) (E : Externals) (now : Int) (k v : PyVal) (tt
     (read : Bool) (tag : SqlVal) (h : TableInv s) :
     ∀ r ∈ (s.set E now k v ttl read tag).1.rows,
       keyMatch (DC.put E s.cfg.disk k).1 (DC.put E s.cfg.disk k).2 r = false → r ∈ s.rows := by
-  sorry
+  unfold set
+  have hnn := put_ne_null' E s.cfg.disk k
+  generalize DC.put E s.cfg.disk k = p at hnn ⊢
+  rcases p with ⟨dbk, raw⟩
+  simp only at hnn ⊢
+  split
+  · intro r hr _; exact hr
+  · rename_i s' c hst
+    obtain ⟨h', hrows⟩ := store_inv hst h
+    refine transact_rows_of _ _ (fun l => ∀ r ∈ l, keyMatch dbk raw r = false → r ∈ s.rows) ?_
+    intro t hr hc hz hs
+    have ht : TableInv t := h'.same hr hc hz hs
+    have hts : t.rows = s.rows := hr.trans hrows
+    refine ⟨?_, fun _ => by rw [hrows]; intro r hr _; exact hr⟩
+    split
+    · intro r hr _; rw [← hts]; exact hr
+    · split
+      · intro r hr _; rw [← hts]; exact hr
+      · cases hold : t.selKey dbk raw with
+        | none =>
+          intro r hr hkm
+          have hI := insRow_inv dbk raw now
+            { c with expT := ttl.map (now + ·), tag := tag } (logSql_inv "selKey" ht) hold hnn
+          have hsub := cullW_sublist _ now hI.tbl.asc
+          rcases insRow_mem _ _ _ _ (hsub.subset hr) with ⟨h1, h2⟩ | hm
+          · simp [keyMatch, h1, h2, eqv_self hnn] at hkm
+          · rw [← hts]; exact hm
+        | some r0 =>
+          intro r hr hkm
+          have hr0 : r0 ∈ t.rows := List.mem_of_find?_eq_some hold
+          have hk0 : keyMatch dbk raw r0 = true := List.find?_some hold
+          have hU := updRow_inv r0.rowid now
+            { c with expT := ttl.map (now + ·), tag := tag } (logSql_inv "selKey" ht)
+          have hsub := cullW_sublist _ now hU.tbl.asc
+          rcases updRow_mem (s := t.logSql "selKey") ht.tbl.asc hr0 now _ (hsub.subset hr) with ⟨h1, h2⟩ | hm
+          · simp only [keyMatch, h1, h2] at hkm hk0
+            rw [hk0] at hkm; cases hkm
+          · rw [← hts]; exact hm
 
 /-- nothing else is touched by `delete`/`del`: exactly the live row of that key leaves -/
 theorem delete_rows (s : Cache) (E : Externals) (now : Int) (k : PyVal) (h : TableInv s) :
@@ -124,12 +287,91 @@ theorem delete_rows (s : Cache) (E : Externals) (now : Int) (k : PyVal) (h : Tab
       match s.selLive (DC.put E s.cfg.disk k).1 (DC.put E s.cfg.disk k).2 now with
       | some r => s.rows.filter (fun x => x.rowid != r.rowid)
       | none => s.rows := by
-  sorry
+  have _ := h
+  rw [delete_fst]
+  unfold delitem
+  generalize DC.put E s.cfg.disk k = p
+  rcases p with ⟨dbk, raw⟩
+  simp only
+  refine transact_rows_of _ _ (fun l => l = match s.selLive dbk raw now with
+      | some r => s.rows.filter (fun x => x.rowid != r.rowid)
+      | none => s.rows) ?_
+  intro t hrows _ _ _
+  rw [selLive_congr hrows]
+  cases hsel : s.selLive dbk raw now with
+  | none => exact ⟨hrows, fun _ => rfl⟩
+  | some r =>
+    refine ⟨?_, fun hc => by cases hc⟩
+    show ((t.logSql "selLive").delRowQuiet r.rowid).rows = _
+    rw [delRowQuiet_rows, logSql_rows, hrows]
 
 /-- reads never change the set of stored keys and values -/
 theorem get_rows_keys (s : Cache) (E : Externals) (now : Int) (k : PyVal) (read et tg : Bool) :
     (s.get E now k read et tg).1.rows.map (fun r => (r.rowid, r.key, r.raw, r.val, r.file, r.expT, r.tag)) =
     s.rows.map (fun r => (r.rowid, r.key, r.raw, r.val, r.file, r.expT, r.tag)) := by
-  sorry
+  show (s.get E now k read et tg).1.rows.map readProj = s.rows.map readProj
+  unfold get
+  rcases DC.put E s.cfg.disk k with ⟨dbk, raw⟩
+  simp only
+  split
+  · split
+    · rfl
+    · split <;> simp
+  · refine transact_rows_of _ _ (fun l => l.map readProj = s.rows.map readProj) ?_
+    intro t hrows _ _ _
+    refine ⟨?_, fun _ => rfl⟩
+    rw [← hrows]
+    split
+    · split <;> rfl
+    · split
+      · split <;> simp
+      · split <;> split <;> simp [updGet_readProj]
+
+end DC.Cache
+
+namespace DC.Cache
+
+/-- every single call keeps the table well formed -/
+theorem step_inv (s : Cache) (op : Op) (h : TableInv s) : TableInv (s.step op).1 := by
+  cases op with
+  | set E now k v ttl read tag => exact set_inv s E now k v ttl read tag h
+  | add E now k v ttl read tag => exact add_inv s E now k v ttl read tag h
+  | touch E now k ttl => exact touch_inv s E now k ttl h
+  | incr E now k delta dflt => exact incr_inv s E now k delta dflt h
+  | get E now k read et tg => exact get_inv s E now k read et tg h
+  | contains E now k => exact contains_inv s E now k h
+  | pop E now k et tg => exact pop_inv s E now k et tg h
+  | delitem E now k => exact delitem_inv s E now k h
+  | delete E now k => exact delete_inv s E now k h
+  | push E now v pfx back ttl read tag => exact push_inv s E now v pfx back ttl read tag h
+  | pull E now pfx front et tg => exact pull_inv s E now pfx front et tg h
+  | peek E now pfx front et tg => exact peek_inv s E now pfx front et tg h
+  | peekitem E now last et tg => exact peekitem_inv s E now last et tg h
+  | clear => exact clear_inv s h
+  | evict tag => exact evict_inv s tag h
+  | expire now => exact expire_inv s now h
+  | cull now => exact cull_inv s now h
+  | iter E asc => exact iter_inv s E asc h
+  | iterkeys E rev => exact iterkeys_inv s E rev h
+  | len => exact len_inv s h
+  | stats enable reset => exact stats_inv s enable reset h
+  | tbegin => exact tbegin_inv s h
+  | tend => exact tend_inv s h
+  | traise n => exact traise_inv s n h
+  | observe env => exact ⟨h.tbl, h.snap⟩
+
+/-- C03/C08: after EVERY finite call history — any methods, any arguments, any clock
+trajectory, any observations, any nesting of transaction blocks, commits and aborts —
+the table is well formed: no two rows for one key, `len` = number of rows,
+Settings.size = Σ row sizes. -/
+theorem run_inv (s : Cache) (ops : List Op) (h : TableInv s) : TableInv (s.run ops) := by
+  induction ops generalizing s with
+  | nil => exact h
+  | cons op ops ih => exact ih _ (step_inv s op h)
+
+/-- in particular for every history from an empty cache -/
+theorem reachable_inv (c : Cfg) (st : Bool) (ops : List Op) :
+    TableInv (({ cfg := c, statistics := st } : Cache).run ops) :=
+  run_inv _ ops (inv_init c st)
 
 end DC.Cache
